@@ -310,7 +310,13 @@ def h_except_if():
         W = SelWorld(vm, "ExceptIf")
 
         def inv_right(it, fr):
-            ry = fr.locals.get("right_yielded")
+            # "the boolean local of the frame" (the flag that remembers whether the exception produced a true result), whatever it is called
+            from pyvc.values import SBool as _SB
+            flags = [v for k, v in fr.locals.items() if isinstance(v, (bool, _SB)) and k not in it.loop_targets(fr, 0) + it.loop_targets(fr, 1)]
+            if len(flags) != 1:
+                from pyvc.ctx import Unsupported
+                raise Unsupported(f"ExceptIf invariant: expected one boolean local (the 'exception matched' flag), found {len(flags)}")
+            ry = flags[0]
             cnt = W.ghost_true_count("right")
             from pyvc.values import SBool
             ryt = ry.t if isinstance(ry, SBool) else z3.BoolVal(bool(ry))
